@@ -132,9 +132,40 @@ func c39Unhex(s string) []byte {
 
 func TestC39(t *testing.T) {
 	r := kit.Start(t, "C39", "exploration")
-	r.Rule("input = (height prefix, fee prefix, timestamp prefix, VM prefix list). Exhaustive: every assignment of the 7 byte strings of length <=2 over the alphabet {00,01} to the three metadata prefixes and to 0..K VM prefixes (K=2 quick, 4 thorough). Near-miss: prefix-free lists (verdict must be no-conflict) and the same with exactly one planted equal/extended/truncated entry. Random: 3+0..8 prefixes of length 0..5 over alphabets of 2..4 symbols (incl. 0xff), biased to share stems, with nil vs empty slices, through metadata.NewManager and through a harness-owned MetadataManager. Oracle: exists i!=j with entry i a byte-wise prefix of entry j. Non-trivial = at least two non-empty entries share their first byte; distinct = distinct list.")
-	r.Assume("'one prefix is a prefix of another' includes equal prefixes and the empty prefix (prefix of everything), as the statement says")
+	r.Rule("input = (height prefix, fee prefix, timestamp prefix, VM prefix list). Exhaustive: every assignment of the 7 byte strings of length <=2 over the alphabet {00,01} to the three metadata prefixes and to 0..K VM prefixes (K=2 quick, 4 thorough). Near-miss: prefix-free lists (verdict must be no-conflict) and the same with exactly one planted equal/extended/truncated entry. Random: 3+0..8 prefixes of length 0..5 over alphabets of 2..4 symbols (incl. 0xff), biased to share stems, with nil vs empty slices, through metadata.NewManager and through a harness-owned MetadataManager. Oracle: exists i!=j with entry i a byte-wise prefix of entry j. Histories (every single answer judged by the same oracle on private deep copies of what the caller configured): (4) a caller-owned array of 2..10 prefixes (separately allocated byte strings with spare capacity, or adjacent uncapped sub-slices of one byte buffer) checked 2..6 times over views arr[lo:hi] that grow, shrink or repeat (two-index views keep the spare capacity behind hi, some are capped), with the same or other managers; after every call the array up to its capacity, every prefix byte string and the manager's prefixes must be unchanged and a repeated check must repeat its answer. (5) 2..6 goroutines with different managers (half of them conflicting with the view) check views of one shared array with >=3 slots of spare capacity 200 times each at the same time; each answer must be the oracle's, the array unchanged afterwards. (6) managers from metadata.NewManager (exact-capacity or spare-capacity private prefix slices) and NewDefaultManager used the way the chain uses them: chain.HeightKey / FeeKey / TimestampKey derived from m.HeightPrefix() / FeePrefix() / TimestampPrefix() any number of times in any order before and between checks; the manager's prefixes must stay the configured ones and every check must be exact w.r.t. the CONFIGURED prefixes (VM prefixes related to the configured prefixes and to chunk-count bytes 0001 / 0008). Non-trivial = at least two non-empty entries share their first byte (lists); a history with a spare-capacity view and >=2 checks, a check after a key derivation, a concurrent group with both verdicts; distinct = distinct list / history.")
+	r.Assume("the check is a query: it answers for the prefixes passed to it and leaves the caller's slices (up to their capacity) and the manager's prefixes as they are; the answer required of one call does not depend on earlier or concurrent calls",
+		"deriving the chain's state keys (chain.HeightKey/FeeKey/TimestampKey) from a manager's prefixes is a read of the manager; the prefix slices handed to metadata.NewManager are separately allocated",
+		"'one prefix is a prefix of another' includes equal prefixes and the empty prefix (prefix of everything), as the statement says")
 	if rf := r.Replay(); rf != nil && len(rf.Witness) > 0 {
+		var part struct {
+			Part string `json:"part"`
+		}
+		_ = jsonUnmarshal(rf.Witness, &part)
+		switch part.Part {
+		case "alias":
+			var h c39AliasHist
+			if err := jsonUnmarshal(rf.Witness, &h); err == nil {
+				c39RunAlias(r, h)
+				r.Finish(0)
+				return
+			}
+		case "derive":
+			var h c39DeriveHist
+			if err := jsonUnmarshal(rf.Witness, &h); err == nil {
+				c39RunDerive(r, h)
+				r.Finish(0)
+				return
+			}
+		case "concurrent":
+			var c c39ConcCase
+			if err := jsonUnmarshal(rf.Witness, &c); err == nil && len(c.Workers) > 0 {
+				for i := 0; i < 50; i++ { // an interleaving cannot be replayed step by step: re-run the group
+					c39RunConc(r, c)
+				}
+				r.Finish(0)
+				return
+			}
+		}
 		var c c39Case
 		if err := jsonUnmarshal(rf.Witness, &c); err == nil {
 			var meta [3][]byte
@@ -284,5 +315,8 @@ func TestC39(t *testing.T) {
 		}
 		c39Judge(r, [3][]byte{list[0], list[1], list[2]}, vm, rng.IntN(2) == 0)
 	}
+
+	// (4)-(6) histories: views of one caller-owned array, concurrent chains, key derivation
+	c39Histories(r)
 	r.Finish(r.N(2000, 20000))
 }
